@@ -49,7 +49,7 @@ def meta(tier):
                 'endianness x address width); each history is completed with constants K0/K1, definitions for labels that were '
                 'referenced but not defined (so references are forward as well as backward) and a suffix that emits every '
                 'label value; the whole image from address 0 must equal the reference layout; non-trivial = history with a '
-                'label reference and an address-moving line (origin/align/zone/fill); states = distinct reference states',
+                'label reference and an address-moving line (origin/align/zone/fill); plus every history up to depth 4 (thorough 5) over a 12-symbol multi-file alphabet (labels, references, origins, zone switches, alignment, and includes of a plain file, of a file that switches zone, of a file with its own origin), with every label of every file read out at the end; states = distinct reference states',
         'bounds': {'alphabet': [R.render_stmt(s) if s[0] != 'excluded' else '#if 0 / .byte 1,2,3 / G9: / #endif' for s in SIGMA],
                    'depth_full': 3 if q else 4, 'depth_core': 4 if q else 5, 'configs': [c[0] for c in CONFIGS]},
         'assumptions': [
@@ -57,7 +57,7 @@ def meta(tier):
             'does not say which of the two addresses "the next line" has)',
             'muted lines occupy addresses', 'constants defined from address labels are not generated',
         ],
-        'floors': {'evaluations': 1000, 'nontrivial': 100, 'statuses': ['OK', 'REJECT'], 'clauses': ['accepted']},
+        'floors': {'evaluations': 1000, 'nontrivial': 100, 'statuses': ['OK', 'REJECT'], 'clauses': ['accepted', 'multi-file']},
         'nshards': 64,
     }
 
@@ -116,6 +116,58 @@ def shard(acc, tier, idx, n):
                 ref, out, msg = run_program(acc, params, isa, files, nontrivial=((ci, h) if moving(h) else None),
                                             sample=(len(h) == depth))
                 acc.state((ci, ref.state_key) if ref.status != 'REJECT' else (ci, 'REJECT'))
+    multi_file(acc, idx, n, q)
+
+
+MULTI = [('label', 'G0'), ('nop',), ('jmp', ('lab', 'G0')), ('data', 2, [('lab', 'G1')]), ('org', 2, 'zz'), ('memzone', 'zz'), ('memzone', 'GLOBAL'),
+         ('align', 4), ('org', 0x10, None), ('inc', 'plain'), ('inc', 'zoned'), ('inc', 'origin')]
+
+
+def build_multi(hist):
+    """Programs spread over several files: an included file is laid out in GLOBAL whatever zone its #include line sits in, and the
+    includer carries on in its own zone afterwards; every label defined in an included file is read out at the end."""
+    files = {}
+    stmts = [('const', 'K0', 7)]
+    defined = set()
+    inner = []
+    for i, s in enumerate(hist):
+        if s[0] == 'inc':
+            name = f'f{i}.asm'
+            lab = f'I{i}'
+            body = {'plain': [('nop',), ('label', lab), ('data', 1, [0xA0 + i])],
+                    'zoned': [('label', lab), ('memzone', 'zz'), ('data', 1, [0xB0 + i]), ('label', lab + 'z'), ('nop',)],
+                    'origin': [('org', 0x18, None), ('label', lab), ('ldi', 'a', ('lab', 'K0'))]}[s[1]]
+            files[name] = body
+            inner += [lab] + ([lab + 'z'] if s[1] == 'zoned' else [])
+            stmts.append(('include', name))
+            continue
+        stmts.append(s)
+        if s[0] == 'label':
+            defined.add(s[1])
+    for name in ('G0', 'G1'):
+        if name not in defined:
+            stmts += [('label', name), ('nop',)]
+    stmts += [('data', 2, [('lab', 'G0'), ('lab', 'G1')] + [('lab', x) for x in inner]), ('data', 1, [0xEE])]
+    files['main.asm'] = stmts
+    return files
+
+
+def multi_file(acc, idx, n, q):
+    params = CONFIGS[0][1]
+    isa = isa_of(params)
+    depth = 4 if q else 5
+
+    def ok(h):
+        return R.assemble(params, build_multi(h)).status != 'REJECT'
+
+    for h in histories(MULTI, depth, idx, n, prefix_ok=ok):
+        if not any(s[0] == 'inc' for s in h):
+            continue
+        files = build_multi(h)
+        ref, out, msg = run_program(acc, params, isa, files, clause='multi-file',
+                                    nontrivial=(('multi', h) if any(s[0] in ('org', 'memzone', 'align') for s in h) else None),
+                                    sample=(len(h) == depth and h[0][0] == 'memzone' and h[-1][0] == 'inc'))
+        acc.state(('multi', ref.state_key) if ref.status != 'REJECT' else ('multi', 'REJECT'))
 
 
 def judge(spec, outcomes):
